@@ -122,8 +122,10 @@ Definition bclass (c : bcase) : N :=
   else if agree {| v_goexit_rethrow := true; v_pushback_asleep_only := v_pushback_asleep_only cv; v_exit_swallows_null_only := v_exit_swallows_null_only cv |} then 3%N
   else if agree V_FULL then 4%N else 5%N.
 Definition bclasses (cs : list bcase) : list N := map bclass cs.
-(* indices of the cases in the class of blocked-deferred-panic-recovered-by-caller-continues *)
-Definition bblockflags (cs : list bcase) : list N := idx_where (fun c => negb (spec_blockflag FUEL (b_prog c))) 0%N cs.
+(* indices of the cases in the classes of blocked-deferred-panic-recovered-by-caller-continues (A) and
+   replaced-panic-resurrected-when-deferred-call-blocks (B) *)
+Definition bblockflags (cs : list bcase) : list N := idx_where (fun c => negb (fst (spec_blockflags FUEL (b_prog c)))) 0%N cs.
+Definition bblockflags2 (cs : list bcase) : list N := idx_where (fun c => negb (snd (spec_blockflags FUEL (b_prog c)))) 0%N cs.
 
 (* dynamic features of the specification run that delimit the two recorded
    findings: a Goexit was executed; a panic was raised by a deferred call while
